@@ -76,6 +76,18 @@ def handle (op : String) (req : Json) : R Json := do
                 ("strict_stamps", jBool (v != .tofwerk || acc.all (fun e => stampStrict e.name.toList))),
                 ("hkey", jBool hkey),
                 ("hyp", jBool (injective && covers && stamps && nameform && header && rect && hkey))])
+  | "c04.cells" =>
+    -- the specification and the mechanism on CELL IDENTITIES (every written non-NaN cell carries its own number, NaN
+    -- cells are null): which written cell stands at each position of the result
+    let vs ← getStr req "vendor"
+    let entries ← getList parseEntry req "entries"
+    let pi ← getList asNat req "pi"
+    let v ← parseVendor vs
+    let img := fun (r : Option (Image V × Unit)) => match r with
+      | none => jObj [("raises", jStr "ValueError")]
+      | some (im, _) => jObj [("image", jImage im)]
+    pure (jObj [("model", img (load isNanV (fun _ _ => ()) v timegm entries pi)),
+                ("spec", img (specLoad isNanV (fun _ _ => ()) v entries))])
   | "c04.sort" =>
     -- `option.sort(option.filter(paths))` of the four options on a list of names
     let names ← getList asStr req "names"
